@@ -265,6 +265,34 @@ theorem runEntries_is_source (acc : Acc) (st : CState) (es : List Entry) (h : âˆ
     | pyExc x => rfl
     | unmodelled => rfl
 
+/-! ## `DLTypeContext.add` -/
+
+/-- **the loop of `DLTypeContext.add` in the source IS the model's `addGo`**: a `None` annotation is skipped, `None` under an
+    optional annotation is skipped and the later elements are still looked at, anything that is not a supported array is
+    the unsupported-type error, and a tensor is queued with its position -/
+theorem addGo_is_source (name : Name) (i : Nat) (as : List (Option Ann)) (vs : List Value) :
+    Gen.addGo name i as vs = addGo name i as vs := by
+  induction as generalizing i vs with
+  | nil => cases vs <;> simp [Gen.addGo, addGo]
+  | cons a as ih =>
+    cases vs with
+    | nil => simp [Gen.addGo, addGo]
+    | cons v vs =>
+      cases a with
+      | none => simp only [Gen.addGo, Gen.addStep, addGo]; exact ih (i + 1) vs
+      | some ann =>
+        cases v with
+        | none =>
+          by_cases ho : ann.optional = true
+          Â· simp only [Gen.addGo, Gen.addStep, addGo, ho, Value.isNoneV, Bool.and_self, if_true]; exact ih (i + 1) vs
+          Â· simp [Gen.addGo, Gen.addStep, addGo, ho, Value.isNoneV]
+        | tensor t =>
+          simp only [Gen.addGo, Gen.addStep, addGo, Value.isNoneV, Bool.and_false, Bool.false_eq_true, if_false]
+          rw [ih (i + 1) vs]
+          cases addGo name (i + 1) as vs <;> rfl
+        | other => simp [Gen.addGo, Gen.addStep, addGo, Value.isNoneV]
+        | tup ws => simp [Gen.addGo, Gen.addStep, addGo, Value.isNoneV]
+
 /-! ## the property theorems, restated about the regenerated source -/
 
 open Dltype.Spec Dltype.Proofs in
